@@ -169,12 +169,12 @@ C05 = simple_check("C05", "c05", "model_checking",
                  "paths that net/http's ServeMux itself redirects (//, dot segments) are outside the request alphabet"],
     trusted=["mc/wire in-memory HTTP exchange (net/http request/response serialisation and parsing)", "refrouter decision table in harness/c05"])
 
-C15 = simple_check("C15", "c15", "model_checking",
+_C15_url = simple_check("C15", "c15", "model_checking",
     rule="exhaustive product of resolver base URLs (scheme/host x context paths of 0-3 segments over {root, root+suffix, prefix-of-root, other} x trailing slash) x encoded resource paths (20 key contents incl. %XX, dot segments, ;, ?, #, reserved characters, at 1 and 2 key positions) x queries x {NewGetRequest, NewJsonRequest}; the URL of the built *http.Request (scheme, host, EscapedPath, RawQuery, String() re-parse) and the request target written to the wire are compared with the reference construction; states = bases, transitions = request constructions",
     assumptions=["contexts holding the root resource name as a complete non-final segment are don't-care, as the property says"],
     trusted=["refurl in harness/c15", "net/url parsing"])
 
-C14 = simple_check("C14", "c14", "model_checking", shards=1,
+_C14_fn = simple_check("C14", "c14", "model_checking", shards=1,
     rule="enumeration of verb x query x body x threshold: (function level) EncodeTunnelledQuery output is serialised, parsed by net/http's server parser and de-tunnelled by DecodeTunnelledQuery, and compared field by field (verb, path, raw query, request URI, body bytes, content type, Rest.li headers) with the plain request parsed the same way; (client level) request builders with thresholds {0,1,len-1,len,len+1,10^6}: tunnelled iff threshold>0 and len(query)>threshold, otherwise byte-identical to the plain request; (malformed) hand-built malformed tunnelled requests must be answered 400 without reaching stub resource code; states = cases, transitions = encode/decode calls",
     assumptions=["queries that cannot be sent untunnelled at all (raw control characters) have no plain counterpart and are skipped at function level (counted)",
                  "the multipart boundary is random (crypto/rand) and not owned; the oracle never looks at it"],
@@ -378,7 +378,7 @@ def C20(sc, tier, replay, t0):
     return D.finish("C20", tier, "model_checking", merged, t0, **kw)
 
 
-def codec_plus_wire(prop, codec, part, rule_suffix, doc, deadline_q=600, deadline_t=3000):
+def plus_wire(prop, codec, part, rule_suffix, doc, deadline_q=600, deadline_t=3000):
     """prop = its codec-harness check + a wire-harness part on resources-quick; the two reports are merged."""
     def run(sc, tier, replay, t0):
         if replay:
@@ -420,8 +420,15 @@ def codec_plus_wire(prop, codec, part, rule_suffix, doc, deadline_q=600, deadlin
     return run
 
 
-C04 = codec_plus_wire("C04", _C04_codec, "C04H", "; (HTTP level) the valid request of every method of every resource with every short ROR2 string as extra / whole query and as key segment, every truncation / single-byte edit of query and JSON body, header variants, replayed raw against the real server: never a panic, 5xx or stack trace, and 4xx without resource invocation whenever the reference parser rejects the query / body; the valid response with every truncation / single-byte edit of its body and id / location / error-header / status / content-type variants fed to the generated client: the call returns, never panics",
+C04 = plus_wire("C04", _C04_codec, "C04H", "; (HTTP level) the valid request of every method of every resource with every short ROR2 string as extra / whole query and as key segment, every truncation / single-byte edit of query and JSON body, header variants, replayed raw against the real server: never a panic, 5xx or stack trace, and 4xx without resource invocation whenever the reference parser rejects the query / body; the valid response with every truncation / single-byte edit of its body and id / location / error-header / status / content-type variants fed to the generated client: the call returns, never panics",
                       "C04 = reader-level robustness (codec harness) + HTTP-level robustness of server and client (wire harness, part C04H).")
 
-C06 = codec_plus_wire("C06", _C06_codec, "C06W", "; (wire level) the complete response of every method answering with an entity, with every required path deleted / nulled and every pair deleted, fed to the generated client: a lenient client returns the value with every other field intact and no error, a strict client the same value and one MissingRequiredFieldsError naming exactly those paths",
+C06 = plus_wire("C06", _C06_codec, "C06W", "; (wire level) the complete response of every method answering with an entity, with every required path deleted / nulled and every pair deleted, fed to the generated client: a lenient client returns the value with every other field intact and no error, a strict client the same value and one MissingRequiredFieldsError naming exactly those paths",
                       "C06 = required-field accounting of the four readers (codec harness) + lenient / strict client on incomplete responses (wire harness, part C06W).")
+
+
+C14 = plus_wire("C14", _C14_fn, "C14W", "; (wire level) every method of every resource of the R-universe x every argument position x its reduced alphabet through generated clients with tunnelling thresholds 1, 40 and 10^6 against the real router: the call reaches the method it names with the arguments given, exactly as the untunnelled call does",
+                "C14 = tunnelling encode / decode at function and client level (harness c14) + tunnelled calls end to end through generated clients and the router (wire harness, part C14W).")
+
+C15 = plus_wire("C15", _C15_url, "C15W", "; (wire level) every method of every resource (top-level, sub-resources two and three levels deep, below a simple resource) through the generated clients, whose RootResource() feeds the resolver, with bases /ctx, /ctx/, /a/b, a context path ending in a sub-resource's name, and context paths ending in the root resource's name (server deployed at the path without it): the request reaches the method it names with the arguments given",
+                "C15 = URL construction over the base-URL grammar (harness c15, hand-written resource path) + generated resource paths end to end (wire harness, part C15W).")
